@@ -170,6 +170,7 @@ def check(F, rep, tier):
     # ---- R17.5 source order: bumped_timestamp, else last_timestamp ----------------------------------------
     rv = F.fn("crate::version::zerv::components::Var::resolve_value")
     if rep.anchor("R17.5", "Var::resolve_value", rv):
+        rv = mir.inlined(F, rv, depth=2, ok=lambda F_, c_, cp, g_: g_ is not None and g_.kind != "closure" and cp.startswith("crate::version::zerv::components::"))
         sites = [(bi, t, t[2][1]) for bi, t in rv.calls() if (mir.callee(t) or "").endswith("timestamp::resolve_timestamp")]
         # `timestamp.and_then(|ts| resolve_timestamp(pattern, ts))`: the instant is the receiver of the adaptor that owns the closure
         for c in mir.closures_in(F, rv):
